@@ -126,7 +126,7 @@ theorem raw_loop1_step (pre rem : Bytes) (e : Nat) (hlen : pre.length + rem.leng
       | none => simp only [Bool.not_false, if_true, Ctl.ret_bind', Rs.loopStep_err']
       | some k => 
         simp only [Bool.not_true, Bool.false_eq_true, if_false, Ctl.pure_eq', Ctl.val_bind', Rs.loopStep_val']
-        congr 3 <;> omega
+        simp only [Ctl.val.injEq, Rs.Step.next.injEq, Prod.mk.injEq]; constructor <;> first | exact True.intro | (push_cast; first | rfl | exact Int.add_comm _ _) | omega
     · have hcn : c.toNat ≠ 92 := fun h => hc (UInt8.toNat_inj.mp (by simpa using h))
       have hc' : ¬ (((c.toNat : Nat) : Int) = 92) := by omega
       have hb : (c == 92) = false := by simpa using hc
@@ -148,7 +148,7 @@ theorem raw_loop1_step (pre rem : Bytes) (e : Nat) (hlen : pre.length + rem.leng
             Bool.or_eq_true, beq_iff_eq, ← UInt8.toNat_inj, UInt8.toNat_ofNat] at hd
           omega
         simp (disch := omega) only [hd, Bool.false_eq_true, if_false, Rs.add_usize_ok', Ctl.ofRes_ok', Ctl.val_bind', Ctl.pure_eq', Rs.loopStep_val']
-        congr 3 <;> omega
+        simp only [Ctl.val.injEq, Rs.Step.next.injEq, Prod.mk.injEq]; constructor <;> first | exact True.intro | (push_cast; first | rfl | exact Int.add_comm _ _) | omega
 
 def scanOut (r : Res (Nat × Nat)) : Ctl (Bytes × Bytes) (Int × Int) :=
   match r with
@@ -302,7 +302,7 @@ theorem string_loop1_step (pre rem : Bytes) (e : Nat) (hlen : pre.length + rem.l
       | none => simp only [Bool.not_false, if_true, Ctl.ret_bind', Rs.loopStep_err']
       | some k =>
         simp only [Bool.not_true, Bool.false_eq_true, if_false, Ctl.pure_eq', Ctl.val_bind', Rs.loopStep_val']
-        congr 3 <;> omega
+        simp only [Ctl.val.injEq, Rs.Step.next.injEq, Prod.mk.injEq]; constructor <;> first | exact True.intro | (push_cast; first | rfl | exact Int.add_comm _ _) | omega
     · have hcn : c.toNat ≠ 92 := fun h => hc (UInt8.toNat_inj.mp (by simpa using h))
       have hc' : ¬ (((c.toNat : Nat) : Int) = 92) := by omega
       have hb : (c == 92) = false := by simpa using hc
@@ -322,7 +322,7 @@ theorem string_loop1_step (pre rem : Bytes) (e : Nat) (hlen : pre.length + rem.l
           simp only [beq_iff_eq, ← UInt8.toNat_inj, UInt8.toNat_ofNat] at hd
           omega
         simp (disch := omega) only [hd, Bool.false_eq_true, if_false, Rs.add_usize_ok', Ctl.ofRes_ok', Ctl.val_bind', Ctl.pure_eq', Rs.loopStep_val']
-        congr 3 <;> omega
+        simp only [Ctl.val.injEq, Rs.Step.next.injEq, Prod.mk.injEq]; constructor <;> first | exact True.intro | (push_cast; first | rfl | exact Int.add_comm _ _) | omega
 
 theorem string_agrees (ps : Bytes → Int → Int → Res (Bytes × Int)) (hps : PSpec ps) (input : Bytes)
     (hlen : input.length < 9223372036854775808) :
